@@ -323,7 +323,8 @@ class Interp(ExprMixin):
         return [Outcome("continue", st)]
 
     def st_FunctionDef(self, st, s):
-        st.env[s.name] = FuncVal(s, env=st.env, module=st.env.get("__module__"))
+        outer = st.env.get("__func__")
+        st.env[s.name] = FuncVal(s, env=st.env, module=st.env.get("__module__"), qualname=(f"{outer}.{s.name}" if outer else None))
         return None
 
     def st_Delete(self, st, s):
